@@ -166,6 +166,10 @@ def cli_glue_ob(prog, res, oid, mod, tool, in_param, out_param, in_mode, out_mod
         it = p.interp
         u = it.user
         calls = u.get('tool_calls', [])
+        if not calls:
+            # a run that ends without converting (a pre-check refused the file, an early return): whether that is right is not
+            # something this rule can tell; the paths that do convert are judged (and at least one must exist)
+            return [soft(f'{tool} is not called on a path of cli_run that returns normally')]
         if len(calls) != 1:
             return [definite(f'{tool} is called {len(calls)} times by cli_run')]
         b, extra = calls[0]
@@ -239,12 +243,276 @@ def cli_glue_ob(prog, res, oid, mod, tool, in_param, out_param, in_mode, out_mod
                         rule=f'{oid}.cli.{tool}', unknown_ok=benign_unknown)
 
 
+# the option strings of the tools' command lines as the rules know them (what an operator types; the dest an option lands under,
+# its action and its default are read from the parser).  An option the rules do not know may change anything: the command
+# lines that carry one are not judged.
+KNOWN_FLAGS = {'--config-file', '--csvoutputfile', '--debug', '--expanded', '--in-encoding', '--in-format', '--no1014blocking',
+               '--out-encoding', '--out-filename', '--out-format', '--output', '--verbose', '--version', '-d', '-o', '-v',
+               '-s', '--sourceformat', '-h', '--help'}
+
+
+def unknown_option_given(info):
+    return sorted(f for f, r in (info or {}).items() if isinstance(r, dict) and f.startswith('-') and f not in KNOWN_FLAGS
+                  and r.get('given') is not False)
+
+
+def cli_argv_ob(prog, res, oid, mod, tool, in_param, out_param, in_mode, out_mode, passthrough=(), formats_switch=False,
+                text_encoding=None):
+    """The same question as cli_glue_ob, asked of the real command line: cli_entry is interpreted with the argparse
+    definitions of the tool turned into the namespace parse_args() delivers, for every way of giving or leaving out each
+    option (which dest an option lands under, its action, default, choices are read from the parser, not assumed).
+    What the operator types is identified by the option strings."""
+    from ..report import func_where
+    if not all(prog.has_func(f'{mod}.{n}') for n in ('cli_entry', 'cli_run', tool)):
+        return None
+    efi = prog.func(f'{mod}.cli_entry')
+    cfi = prog.func(f'{mod}.cli_run')
+    tfi = prog.func(f'{mod}.{tool}')
+
+    def tool_summary(it, f, args, kwargs, node, self_obj):
+        names = [a.arg for a in f.node.args.args]
+        b = dict(zip(names, args))
+        b.update({k: v for k, v in kwargs.items() if k != '**'})
+        it.user.setdefault('tool_calls', []).append((b, kwargs.get('**')))
+        return ConstV(None)
+    summ_c = {tfi.short: tool_summary}
+    for helper in ('cli.print_banner', 'cli.get_config', f'{mod}.print_check_details'):
+        if prog.has_func(helper):
+            def helper_summary(it, f, args, kwargs, node, self_obj, helper=helper):
+                return DictV(open_=True, desc='get_config()') if helper.endswith('get_config') else ConstV(None)
+            summ_c[prog.func(helper).short] = helper_summary
+    if prog.has_func('mciipm.ipm_info'):
+        summ_c[prog.func('mciipm.ipm_info').short] = lambda it, f, args, kwargs, node, self_obj: DictV(open_=True, desc='ipm_info()')
+    runs_c = Runs(prog, lambda it: it.call_function(efi, [], {}), summaries=summ_c, res=res, max_paths=4000)
+    seen = {'n': 0}
+
+    def flag_of(name):
+        return '--' + name.replace('_', '-')
+
+    def chk_c(p, mode):
+        if p.outcome != 'return':
+            return [definite(f'cli_entry raises {p.value!r}')] if p.outcome == 'raise' else []
+        it = p.interp
+        info = it.user.get('argv')
+        if not info:
+            return [soft('cli_entry does not build its arguments with an argparse parser the analysis could follow')]
+        if unknown_option_given(info):
+            return []
+        calls = it.user.get('tool_calls', [])
+        if not calls:
+            # a run that ends without converting (a pre-check refused the file, an early return): whether that is right is not
+            # something this rule can tell; the paths that do convert are judged (and at least one must exist)
+            return [soft(f'{tool} is not called on a path of cli_entry that returns normally')]
+        if len(calls) != 1:
+            return [definite(f'{tool} is called {len(calls)} times by cli_entry')]
+        b, extra = calls[0]
+        seen['n'] += mode == 'inv'
+        NOT_FOLLOWED = object()
+
+        def arg(name):
+            if name in b:
+                return it.resolve(b[name])
+            if isinstance(extra, DictV) and name in extra.items:
+                return it.resolve(extra.items[name])
+            if extra is not None and not (isinstance(extra, DictV) and not extra.open and not extra.sym_stores
+                                          and getattr(extra, 'comp', None) is None and extra.default is None):
+                return NOT_FOLLOWED
+            return None
+
+        def same(v, want):
+            v, want = it.resolve(v) if v is not None else None, it.resolve(want)
+            if v is want:
+                return True
+            if isinstance(v, ConstV) and isinstance(want, ConstV):
+                return v.value == want.value
+            return isinstance(v, SeqV) and isinstance(want, SeqV) and v.is_lit() and want.is_lit() and v.lit_value() == want.lit_value()
+        fails = []
+        positional = [r for f, r in info.items() if isinstance(r, dict) and not f.startswith('-')]
+        if not positional:
+            return [soft('the parser defines no positional argument for the input file')]
+        in_rec = positional[0]
+        out_rec = info.get('--out-filename') or info.get('-o')
+        opens = {e.data['file']: e for e in p.evs('open')}
+        for role, name, rec, mode_ in (('input', in_param, in_rec, in_mode), ('output', out_param, out_rec, out_mode)):
+            f = arg(name)
+            if f is NOT_FOLLOWED:
+                return [soft(f'{name} reaches {tool} through a dictionary whose entries are not individually known')]
+            e = opens.get(f)
+            if e is None:
+                fails.append(soft(f'the {role} file handed to {tool} is not a file opened by cli_run: {f!r}'))
+                continue
+            a = e.data['args']
+            if rec is None:
+                fails.append(soft(f'the parser defines no option for the {role} file name'))
+            elif rec['given'] and not (a and it.resolve(a[0]) is it.resolve(rec['value'])):
+                fails.append(definite(f'the {role} file is opened from {a[0] if a else None!r}, not from the name given on the command '
+                                      f'line ({rec["flags"][-1]})', e.node, firm=True))
+            if f.mode != mode_:
+                fails.append(definite(f'the {role} file is opened with mode {f.mode!r}, not {mode_!r}', e.node))
+            if role == 'output' and rec is not None and not rec['given'] and a:
+                # the output name the tool derives may never be the input name (the input would be truncated before it is read)
+                outn, inn = it.resolve(a[0]), it.resolve(in_rec['value'])
+                if outn is inn:
+                    fails.append(definite('without an output name the tool writes to the input file itself', e.node, firm=True))
+                elif not (isinstance(outn, SeqV) and isinstance(inn, SeqV) and
+                          p.store.decide_eq0(outn.length() - inn.length()) is False):
+                    fails.append(soft(f'without an output name the tool writes to {outn!r}: not shown to differ from the input name '
+                                      f'for every input name', e.node))
+            if text_encoding and text_encoding[0] == role:
+                _r, opt, sink = text_encoding
+                orec = info.get(flag_of(opt))
+                enc = e.data['kwargs'].get('encoding', a[3] if len(a) > 3 else None)
+                if enc is None and '**' in e.data['kwargs']:
+                    ex_ = it.resolve(e.data['kwargs']['**'])
+                    enc = ex_.items.get('encoding') if isinstance(ex_, DictV) and not ex_.open else UnkV('**')
+                enc = it.resolve(enc) if enc is not None else None
+                if orec is None:
+                    fails.append(soft(f'the parser defines no {flag_of(opt)}'))
+                elif orec['given']:
+                    if enc is not it.resolve(orec['value']):
+                        fails.append(definite(f'{flag_of(opt)} is given on the command line but the {role} text file is opened with '
+                                              f'encoding {enc!r}, not with its value', e.node, firm=True))
+                elif mode == 'inv':
+                    k = None if enc is None or isinstance(enc, ConstV) and enc.value is None else it.py_key(enc)
+                    if isinstance(k, str):
+                        import codecs
+                        try:
+                            k = codecs.lookup(k).name
+                        except LookupError:
+                            pass
+                    sink.setdefault(mod, set()).add(k if (k is None or isinstance(k, str)) else '?')
+        nrec = info.get('--no1014blocking')
+        if nrec is None:
+            return fails + [soft('the parser defines no --no1014blocking')]
+        nb = bool(nrec['given'])
+        if formats_switch:
+            for name in ('in_format', 'out_format'):
+                v = arg(name)
+                frec = info.get(flag_of(name))
+                if v is NOT_FOLLOWED:
+                    return [soft(f'{name} reaches {tool} through a dictionary whose entries are not individually known')]
+                if nb:
+                    if not (isinstance(v, SeqV) and v.is_lit() and v.lit_value() == 'vbs'):
+                        fails.append(definite(f'--no1014blocking is given on the command line but {name} reaches {tool} as {v!r}, '
+                                              f'not "vbs"', firm=True))
+                elif frec is None:
+                    fails.append(soft(f'the parser defines no {flag_of(name)}'))
+                elif frec['given'] and not same(v, frec['value']):
+                    fails.append(definite(f'{flag_of(name)} is given on the command line but {name} reaches {tool} as {v!r}', firm=True))
+        else:
+            v = arg('no1014blocking')
+            if v is NOT_FOLLOWED:
+                return [soft(f'no1014blocking reaches {tool} through a dictionary whose entries are not individually known')]
+            v = it.resolve(v) if v is not None else ConstV(None)
+            if not isinstance(v, ConstV):
+                fails.append(soft(f'no1014blocking reaches {tool} as {v!r}'))
+            elif bool(v.value) != nb:
+                fails.append(definite(f'--no1014blocking is {"given" if nb else "not given"} on the command line but {tool} receives '
+                                      f'no1014blocking={v.value!r}', firm=True))
+        for name in passthrough:
+            orec = info.get(flag_of(name))
+            v = arg(name)
+            if v is NOT_FOLLOWED:
+                return [soft(f'{name} reaches {tool} through a dictionary whose entries are not individually known')]
+            if orec is None:
+                fails.append(soft(f'the parser defines no {flag_of(name)}'))
+            elif orec['given'] and not same(v, orec['value']):
+                fails.append(definite(f'{flag_of(name)} is given on the command line but {name} reaches {tool} as {v!r}, not its value',
+                                      firm=True))
+        return fails
+    from ..decide import require_instances
+    return require_instances(
+        runs_c.judge(oid, f'{mod}.cli_entry: what the operator gives on the command line (file names, encodings, formats, '
+                          f'--no1014blocking), parsed by the tool\'s own argparse definitions, reaches {tool} unchanged',
+                     func_where(efi), 'cli_run(**vars(cli_parser().parse_args()))', chk_c,
+                     rule=f'{oid}.argv.{tool}', unknown_ok=benign_unknown),
+        seen['n'], f'a call of {tool} reached from cli_entry')
+
+
+def cli_argv_io_ob(prog, res, oid, mod, command=None, out_flags=(), label=None):
+    """mideu / paramconv through their real command line: cli_entry is interpreted with the namespace their own argparse
+    definitions deliver and the reader / writer classes as recording summaries.  --no1014blocking given <=> every reader and
+    writer is built unblocked; the input named on the command line is the file opened for reading; an output name given with
+    one of `out_flags` is the file opened for writing."""
+    from ..report import func_where
+    from ..decide import require_instances
+    if not prog.has_func(f'{mod}.cli_entry'):
+        return None
+    efi = prog.func(f'{mod}.cli_entry')
+    summ = io_summaries(prog)
+    for helper in ('cli.print_banner', 'cli.get_config'):
+        if prog.has_func(helper):
+            def helper_summary(it, f, args, kwargs, node, self_obj, helper=helper):
+                return DictV(open_=True, desc='get_config()') if helper.endswith('get_config') else ConstV(None)
+            summ[prog.func(helper).short] = helper_summary
+    runs = Runs(prog, lambda it: it.call_function(efi, [], {}), summaries=summ, res=res, max_paths=4000)
+    seen = {'n': 0}
+    what = label or (f'{mod} {command}' if command else mod)
+
+    def chk(p, mode):
+        it = p.interp
+        info = it.user.get('argv')
+        if p.outcome not in ('return', 'loopback'):
+            return []
+        if not info:
+            return [soft('cli_entry does not build its arguments with an argparse parser the analysis could follow')] \
+                if p.outcome == 'return' else []
+        if command is not None and info.get('command') != command:
+            return []
+        if unknown_option_given(info):
+            return []
+        ctors = [(n, o, b) for n, o, b in it.user.get('io', [])]
+        if p.outcome == 'loopback' or not ctors:
+            return []
+        seen['n'] += mode == 'inv'
+        fails = []
+        nrec = info.get('--no1014blocking')
+        if nrec is None:
+            fails.append(soft('the parser defines no --no1014blocking'))
+        else:
+            given = bool(nrec['given'])
+            for n, o, b in ctors:
+                got = b.get('blocked')
+                if got is None and isinstance(b.get('**'), DictV):
+                    got = b['**'].items.get('blocked')
+                got = it.resolve(got) if got is not None else ConstV(False)
+                if not isinstance(got, ConstV):
+                    fails.append(soft(f'{n} is built with blocked={got!r}'))
+                elif bool(got.value) is given:
+                    fails.append(definite(f'--no1014blocking is {"given" if given else "not given"} on the command line of {what} but '
+                                          f'{n} is built with blocked={got.value!r}', firm=True))
+        opens = list(p.evs('open'))
+
+        def opened(value, modes):
+            value = it.resolve(value)
+            return any(e.data['args'] and it.resolve(e.data['args'][0]) is value and (e.data['file'].mode or 'r')[0] in modes
+                       for e in opens)
+        positional = [r for f, r in info.items() if isinstance(r, dict) and not f.startswith('-')]
+        if positional and not opened(positional[0]['value'], 'r'):
+            fails.append(definite(f'the input file named on the command line of {what} is not the file opened for reading', firm=True))
+        for fl in out_flags:
+            orec = info.get(fl)
+            if orec is None:
+                fails.append(soft(f'the parser defines no {fl}'))
+            elif orec['given'] and not opened(orec['value'], 'wax'):
+                fails.append(definite(f'{fl} is given on the command line of {what} but no file of that name is opened for writing: the '
+                                      f'output goes somewhere else', firm=True))
+        return fails
+    chk.no_return_ok = True
+    return require_instances(
+        runs.judge(oid, f'{what}: --no1014blocking, the input name and the output name given on the command line, parsed by the '
+                        f'tool\'s own argparse definitions, reach the readers, writers and open() calls',
+                   func_where(efi), 'cli_run(**vars(_get_cli_parser().parse_args(*args)))', chk,
+                   rule=f'{oid}.argv.{what.replace(" ", ".").replace("cli.", "")}', unknown_ok=benign_unknown),
+        seen['n'], f'a reader or writer built on a path from {mod}.cli_entry')
+
+
 CLI_ERROR_TOOLS = (('cli.mci_ipm_to_csv', ('cli.mci_ipm_to_csv.mci_ipm_to_csv',), None),
                    ('cli.mideu', ('cli.mideu.extract', 'cli.mideu.convert'), 'func'),
                    ('cli.paramconv', ('cli.paramconv.mci_ipm_param_encode',), None))
 
 
-def cli_error_runs(prog, res, mod, tools, func_key, deep=False):
+def cli_error_runs(prog, res, mod, tools, func_key, deep=False, via_entry=False):
     """cli_run of a tool interpreted with the conversion function summarised as "returns, or raises the library data error":
     -> Runs whose paths record the raised error (user['raised']) and what was handed to print_exception_details (user['reported'])"""
     from ..signals import Raised
@@ -264,7 +532,7 @@ def cli_error_runs(prog, res, mod, tools, func_key, deep=False):
         it.user.setdefault('reported', []).append(it.resolve(args[0]) if args else None)
         return ConstV(None)
     summ = {prog.func(t).short: tool_summary for t in tools if prog.has_func(t)}
-    if prog.has_func('cli.print_exception_details'):
+    if prog.has_func('cli.print_exception_details') and not via_entry:
         summ[prog.func('cli.print_exception_details').short] = report_summary
     for helper in ('cli.print_banner', 'cli.get_config', f'{mod}.print_check_details'):
         if deep and helper.endswith('print_check_details'):
@@ -295,6 +563,10 @@ def cli_error_runs(prog, res, mod, tools, func_key, deep=False):
             fis = [prog.func(t) for t in tools if prog.has_func(t)]
             kw[func_key] = FuncV(fis[it.choose(len(fis), 'sub-command') or 0])
         return it.call_function(cfi, [], kw)
+    if via_entry:
+        # the real command line: cli_entry with the namespace the tool's own argparse definitions deliver; the report is interpreted
+        efi = prog.func(f'{mod}.cli_entry')
+        return Runs(prog, lambda it: it.call_function(efi, [], {}), summaries=summ, res=res, max_paths=4000), efi
     return Runs(prog, entry, summaries=summ, res=res, raise_ops=deep), cfi
 
 
@@ -337,6 +609,40 @@ def cli_error_obs(prog, res, which):
         if ob.verdict == PROVED and not seen['raised']:
             ob.verdict, ob.detail = UNDECIDED, 'the conversion function is not called by cli_run on any explored path: nothing was judged'
         out.append(ob)
+        if which == 'report' and prog.has_func(f'{mod}.cli_entry'):
+            # ... and through the real command line, with the report interpreted: the raw record of the error reaches the output
+            from .vbs import same_seq
+            runs_e, efi = cli_error_runs(prog, res, mod, tools, func_key, via_entry=True)
+            seen_e = {'raised': 0}
+
+            def chk_e(p, mode):
+                exc = p.interp.user.get('raised')
+                if exc is None or p.outcome != 'return' or unknown_option_given(p.interp.user.get('argv')):
+                    return []
+                seen_e['raised'] += mode == 'inv'
+                ctx = exc.kwargs.get('binary_context_data') or exc.fields.get('binary_context_data')
+                opaque = False
+                for e in p.events:
+                    if e.kind != 'ext-call':
+                        continue
+                    for a in list(e.data.get('args') or []) + list((e.data.get('kwargs') or {}).values()):
+                        a = p.interp.resolve(a)
+                        if isinstance(a, SeqV) and a.kind == 'bytes' and same_seq(p, a, ctx):
+                            return []
+                        if isinstance(a, (UnkV, BoundExt, IterV, GenCallV)) or isinstance(a, SymV) and a.kind in ('any', 'elem'):
+                            opaque = True
+                if opaque:
+                    return [soft('what the tool hands to its output calls while reporting could not be followed')]
+                given = {f: r['given'] for f, r in (p.interp.user.get('argv') or {}).items() if isinstance(r, dict) and f.startswith('--')}
+                return [definite(f'the library data error is caught but the raw bytes of its record never reach the output of the tool '
+                                 f'(options on this path: {", ".join(f for f, g in sorted(given.items()) if g) or "none"})', firm=True)]
+            chk_e.no_return_ok = True
+            obe = runs_e.judge('C10.d', f'{mod}.cli_entry: through the real command line (options as the tool\'s parser delivers them) the '
+                                        f'report of a library data error shows the raw record', func_where(efi), 'print_exception_details(err) -> hexdump(err.binary_context_data)',
+                               chk_e, rule=f'C10.d.argv.{mod}', unknown_ok=benign_unknown)
+            if obe.verdict == PROVED and not seen_e['raised']:
+                obe.verdict, obe.detail = UNDECIDED, 'the conversion function is not called from cli_entry on any explored path: nothing was judged'
+            out.append(obe)
         if which == 'escape':
             # ... and nothing else leaves it while the error is being reported: the handler is interpreted with its own helpers
             # and the file inspection it consults (ipm_info), operations that can fail are allowed to fail
